@@ -61,6 +61,10 @@ pub const CAPTURE: &[Template] = &[
     // a user column named like the helper of a computed sort key / row number
     Template { name: "user-column-named-like-helper-sort", position: "column", setup: "CREATE TABLE t(a, §); INSERT INTO t VALUES (1, 50), (3, 10), (5, 30);", prql: "from t | select {a, §} | sort {a + §} | take 2 | select {§}", reference: "SELECT 10 UNION ALL SELECT 30" },
     Template { name: "user-column-named-like-helper-rownum", position: "column", setup: "CREATE TABLE t(a, §); INSERT INTO t VALUES (1, 50), (1, 10), (5, 30);", prql: "from t | select {a, §} | group {a} (sort {§} | take 1) | sort a | select {§}", reference: "SELECT 10 UNION ALL SELECT 30" },
+    // two user objects carrying *consecutive* generated names (¤ = the name the generator would try next)
+    Template { name: "two-user-tables-named-like-consecutive-ctes", position: "table", setup: "CREATE TABLE §(a, b); INSERT INTO § VALUES (1, 2), (2, 3), (3, 4); CREATE TABLE ¤(a, d); INSERT INTO ¤ VALUES (2, 70), (9, 90);", prql: "from § | sort a | take 3 | filter a > 1 | join side:left ¤ (==a) | select {§.a, m = ¤.d}", reference: "SELECT 2, 70 UNION ALL SELECT 3, NULL" },
+    Template { name: "two-user-tables-named-like-consecutive-ctes-swapped", position: "table", setup: "CREATE TABLE ¤(a, b); INSERT INTO ¤ VALUES (1, 2), (2, 3), (3, 4); CREATE TABLE §(a, d); INSERT INTO § VALUES (2, 70), (9, 90);", prql: "from ¤ | sort a | take 3 | filter a > 1 | join side:left § (==a) | select {¤.a, m = §.d}", reference: "SELECT 2, 70 UNION ALL SELECT 3, NULL" },
+    Template { name: "two-user-columns-named-like-consecutive-helpers", position: "column", setup: "CREATE TABLE t(a, §, ¤); INSERT INTO t VALUES (1, 50, 5), (3, 10, 7), (5, 30, 1);", prql: "from t | select {a, §, ¤} | sort {a + §} | take 2 | sort {a + ¤} | take 1 | select {§, ¤}", reference: "SELECT 30, 1" },
     Template { name: "user-alias-named-like-helper", position: "derived", setup: "CREATE TABLE t(a, b); INSERT INTO t VALUES (1, 50), (3, 10), (5, 30);", prql: "from t | select {a, b} | derive {§ = b + 1} | sort {a + b} | take 2 | filter § > 11 | select {§, a}", reference: "SELECT 31, 5" },
 ];
 
@@ -146,18 +150,27 @@ pub fn check_case(t: &Template, name: &str, d: Dialect) -> Option<Bad> {
     if name.eq_ignore_ascii_case("true") || name.eq_ignore_ascii_case("false") {
         return None;
     }
-    let setup = t.setup.replace('§', &q_sql(name));
+    // ¤: the name the compiler's generator would try after `name` (`table_1` for `table_0`), else a plain companion
+    let next = {
+        let digits: String = name.chars().rev().take_while(|c| c.is_ascii_digit()).collect::<String>().chars().rev().collect();
+        let stem = &name[..name.len() - digits.len()];
+        match digits.parse::<u64>() {
+            Ok(n) if (stem == "table_" || stem == "_expr_") && !(digits.len() > 1 && digits.starts_with('0')) => format!("{stem}{}", n + 1),
+            _ => format!("{name}_2"),
+        }
+    };
+    let setup = t.setup.replace('§', &q_sql(name)).replace('¤', &q_sql(&next));
     if conn.execute_batch(&setup).is_err() {
         // the engine itself cannot hold an object of this name (e.g. reserved `sqlite_` prefix)
         return None;
     }
-    let src = t.prql.replace('§', &q_prql(name));
+    let src = t.prql.replace('§', &q_prql(name)).replace('¤', &q_prql(&next));
     let sql = match guard(|| prqlc::compile(&src, &opts(d))) {
         Err(p) => return Some(Bad { key: crate::c12::panic_key(&p), why: format!("{src}: panic at {}: {}", p.site, p.msg) }),
         Ok(Err(e)) => return Some(Bad { key: format!("identifier-rejected:{}", t.position), why: format!("{src}: {}", err_text(&e)) }),
         Ok(Ok(s)) => s,
     };
-    let want = match run_query(&conn, &t.reference.replace('§', &q_sql(name))) {
+    let want = match run_query(&conn, &t.reference.replace('§', &q_sql(name)).replace('¤', &q_sql(&next))) {
         Ok(r) => r,
         Err(_) => return None,
     };
